@@ -1,5 +1,5 @@
 (* C31 — proofs about Model/Pre.v *)
-From Coq Require Import List NArith Bool.
+From Coq Require Import List NArith Bool Arith.
 Import ListNotations.
 From JV Require Import Model.Pre.
 
@@ -82,3 +82,48 @@ Section L.
       apply str_eqb_eq in E2. subst n. now rewrite E.
   Qed.
 End L.
+
+(* ------------------------------------------------------------------ one loader, many environments *)
+Section S.
+  Variable E : Type.
+  Variable sha1_hex : str -> str.
+  Hypothesis hex_no_dot : forall n, ~ In 46%N (sha1_hex n).     (* a hex digest contains no "." *)
+  Variable package_name : str.
+
+  Definition attrs_undotted (l : list (str * nat)) : Prop := forall a i, In (a, i) l -> ~ In 46%N a.
+
+  Lemma key_no_dot : forall n, ~ In 46%N (template_key sha1_hex n).
+  Proof.
+    intros n H. unfold template_key in H. apply in_app_or in H. destruct H as [H|H].
+    - cbn in H. repeat (destruct H as [H|H]; [discriminate|]). exact H.
+    - exact (hex_no_dot n H).
+  Qed.
+
+  Lemma find_dotted_none : forall l key, attrs_undotted l -> find_attr (dotted package_name key) l = None.
+  Proof.
+    induction l as [|[b i] r IH]; intros key H; [reflexivity|]. cbn [find_attr].
+    destruct (str_eqb b (dotted package_name key)) eqn:E1.
+    - apply str_eqb_eq in E1. exfalso. apply (H b i (or_introl eq_refl)). subst b.
+      unfold dotted. apply in_or_app. right. now left.
+    - apply IH. intros a j Hin. apply (H a j). now right.
+  Qed.
+
+  (* every load of every history execs a fresh namespace and earlier namespaces are never written again *)
+  Lemma loads_fresh : forall (h : list (str * E)) (st : lstate E), attrs_undotted (l_attrs st) ->
+    let (st', ids) := loads sha1_hex package_name st h in
+    l_nss st' = l_nss st ++ map (fun ne => Some (snd ne)) h /\
+    ids = seq (length (l_nss st)) (length h) /\ attrs_undotted (l_attrs st').
+  Proof.
+    induction h as [|[n e] r IH]; intros st Hu; cbn [loads].
+    - cbn. rewrite app_nil_r. auto.
+    - unfold load. rewrite (find_dotted_none (l_attrs st) _ Hu).
+      set (st1 := {| l_attrs := (template_key sha1_hex n, length (l_nss st)) :: l_attrs st;
+                     l_nss := l_nss st ++ [Some e] |}).
+      assert (Hu1 : attrs_undotted (l_attrs st1)).
+      { intros a i [Hin|Hin]; [injection Hin as <- _; apply key_no_dot|exact (Hu a i Hin)]. }
+      specialize (IH st1 Hu1). destruct (loads sha1_hex package_name st1 r) as [st2 ids].
+      destruct IH as [H1 [H2 H3]]. cbn [l_nss st1] in *. split; [|split; [|exact H3]].
+      + rewrite H1, <- app_assoc. reflexivity.
+      + rewrite H2, app_length. cbn [length map seq]. f_equal. f_equal. apply Nat.add_1_r.
+  Qed.
+End S.
